@@ -88,15 +88,18 @@ func (hs *heightSub) Wait(ctx context.Context, height uint64, available ...func(
 	verifYield("heightsub:wait")
 
 	hs.heightSubsLk.Lock()
+	verifYield("heightsub:locked")
 	if hs.Height() >= height {
 		// This is a rare case we have to account for.
 		// The lock above can park a goroutine long enough for hs.height to change for a requested height,
 		// leaving the request never fulfilled and the goroutine deadlocked.
+		verifYield("heightsub:unlocking")
 		hs.heightSubsLk.Unlock()
 		return errElapsedHeight
 	}
 	for _, isAvailable := range available {
 		if isAvailable() {
+			verifYield("heightsub:unlocking")
 			hs.heightSubsLk.Unlock()
 			return errElapsedHeight
 		}
@@ -110,6 +113,7 @@ func (hs *heightSub) Wait(ctx context.Context, height uint64, available ...func(
 		hs.heightSubs[height] = sac
 	}
 	sac.count++
+	verifYield("heightsub:unlocking")
 	hs.heightSubsLk.Unlock()
 
 	select {
